@@ -47,5 +47,7 @@ def run(ctx):
             label="MC_Syntax_inject", timeout=7200)
     # interface hierarchies: closure = transitive closure, shadowing = redeclaration (model checked), then compiled
     ctx.tlc("MC_Inherit", "MC_Inherit_" + ctx.tier, replay="rules", coverage=False)
+    # every argument list <= 3 of every known directive (Attributes.tla): well-formed lists accepted, the others rejected with E027 / E028
+    ctx.tlc("MC_AttrArgs", "MC_AttrArgs", replay="rules", coverage=False)
     ctx.tlc("MC_Inherit", "MC_Inherit_twolevels", must_pass=False, workers=2, coverage=False,
             label="MC_Inherit_twolevels(documents what a closure cut after two levels misses)")
